@@ -35,7 +35,7 @@ ASSUMPTIONS = ['golden = the same call evaluated in a fresh interpreter immediat
                'produce (counted in the evidence), not all interleavings', 'writes that bypass __setattr__ (object.__setattr__, '
                '__dict__ surgery) are seen only by the snapshots']
 REQUIRED_COUNTERS = ['histories', 'threaded_histories', 'interleaved_histories', 'calls_with_covariance', 'repeated_identical_calls', 'catalogue_snapshots',
-                     'mutable_arguments_checked', 'context_switches_observed']
+                     'mutable_arguments_checked', 'context_switches_observed', 'results_edited_by_caller', 'calls_with_degenerate_list']
 N = {'quick': (20, 5, 90), 'thorough': (190, 50, 300)}       # histories, threaded histories, pool size   (per shard)
 SHARDS = {'quick': 16, 'thorough': 32}
 MODS = ['constants', 'angles', 'convert', 'statistics', 'survey', 'geodesy', 'ntv2reader', 'transform', 'coord']
@@ -199,7 +199,65 @@ def run_call(ns, spec):
     except Exception as e:
         res = e
     mutated = [str(k) for k, v in before.items() if dkey(args[k[1]] if k[0] == 'a' else kwargs[k[1]]) != v]
-    return dkey(res), mutated, len(before)
+    key = dkey(res)
+    shared = caller_edits_result(ns, res)
+    return key, mutated, len(before), shared
+
+
+def catalogue_ids(ns):
+    C = ns.constants
+    key = id(C.Transformation)
+    if _GRID.get('cat_key') != key:
+        classes = (C.Ellipsoid, C.Projection, C.Transformation, C.TransformationSD)
+        _GRID['cat_ids'] = {id(v): k for k, v in vars(C).items() if isinstance(v, classes)}
+        _GRID['cat_key'] = key
+    return _GRID['cat_ids']
+
+
+def caller_edits_result(ns, res):
+    """What a caller may do with what a call handed back: the result is the caller's own, so after its digest has been
+    taken it is edited in place (array elements, list items, the top-level fields of a returned parameter set, angle or
+    coordinate object).  Nothing of that may reach the library: later calls in the history are still compared with the
+    fresh-interpreter results, the catalogue with its snapshot.  A shipped constant handed back as the result is not
+    edited (that would corrupt everything after it) but reported by name.  The uncertainty object a derived parameter
+    set refers to is left alone: the library documents it as shared with the set it was derived from."""
+    cat = catalogue_ids(ns)
+    C = ns.constants
+    shared = []
+    items = list(res) if isinstance(res, (tuple, list)) else [res]
+    for it in items:
+        if id(it) in cat:
+            shared.append(cat[id(it)])
+            continue
+        try:
+            if isinstance(it, np.ndarray):
+                if it.size and it.flags.writeable and it.dtype.kind in 'fiu':
+                    it.flat[0] = it.flat[0] + 1
+                    it.flat[it.size - 1] = 0
+            elif isinstance(it, list):
+                if it and isinstance(it[0], (int, float)):
+                    it[0] = it[0] + 1.0
+                it.append(0.125)
+            elif isinstance(it, dict):
+                it['edited-by-caller'] = 1
+            elif isinstance(it, C.Transformation):
+                for p in ('tx', 'ty', 'tz', 'sc', 'rx', 'ry', 'rz', 'd_tx', 'd_rz'):
+                    v = getattr(it, p, None)
+                    if isinstance(v, (int, float)):
+                        setattr(it, p, v + 0.25)
+                it.from_datum = 'EDITED'
+            elif type(it).__module__.startswith('geodepy.') and hasattr(it, '__dict__') and not isinstance(it, (float, BaseException)):
+                for p, v in list(vars(it).items()):
+                    if type(v) in (int, float):
+                        try:
+                            setattr(it, p, v + 1)
+                        except Exception:
+                            pass
+        except Exception:
+            pass
+    if isinstance(res, list):
+        res.append(0.125)
+    return shared
 
 
 def V(rnd, kind=None):
@@ -219,6 +277,30 @@ def V(rnd, kind=None):
     A = rs.randn(3, 3)
     M = A @ A.T * 1e-4
     return {'$nd': ((M + M.T) / 2).tolist()}
+
+
+def degenerate_list(rnd):
+    """Observation lists the routine may well refuse: a reading booked twice (anywhere in the list), all readings equal, too
+    few readings, none.  A call that raises is still a call: the caller's list must come back as it went in and the outcome
+    must repeat."""
+    vals = [round(rnd.uniform(88, 100), 4) for _ in range(rnd.randint(3, 6))]
+    k = rnd.choice(['repeat-end', 'repeat-any', 'repeat-any', 'all-equal', 'two', 'one', 'empty', 'repeat-twice'])
+    if k == 'repeat-end':
+        vals.append(vals[-1])
+    elif k == 'repeat-any':
+        vals.insert(rnd.randrange(len(vals) + 1), rnd.choice(vals))
+    elif k == 'repeat-twice':
+        vals = vals + [vals[0], vals[1]]
+        rnd.shuffle(vals)
+    elif k == 'all-equal':
+        vals = [vals[0]] * len(vals)
+    elif k == 'two':
+        vals = vals[:2]
+    elif k == 'one':
+        vals = vals[:1]
+    else:
+        vals = []
+    return {'$list': vals}
 
 
 def gen_pool(ns, rnd, size):
@@ -299,13 +381,25 @@ def gen_pool(ns, rnd, size):
         lambda: {'fn': 'statistics.k_val95', 'args': [rnd.randint(-2, 150)]},
         lambda: {'fn': 'statistics.circ_hz_pu', 'args': [rnd.uniform(0.01, 0.1), rnd.uniform(0.001, 0.01)]},
         lambda: {'fn': 'survey.first_vel_params', 'args': [rnd.uniform(0.5, 1.0), rnd.uniform(1e7, 5e7)]},
-        lambda: {'fn': 'survey.first_vel_corrn', 'args': [rnd.uniform(10, 5000), [281.781, 79.393], rnd.uniform(-10, 40),
+        lambda: {'fn': 'survey.first_vel_corrn', 'args': [rnd.uniform(10, 5000), {'$list': [281.781, 79.393]}, rnd.uniform(-10, 40),
                                                           rnd.uniform(900, 1050), rnd.uniform(0, 100)]},
-        lambda: {'fn': 'survey.first_vel_corrn', 'args': [rnd.uniform(10, 5000), [281.781, 79.393], rnd.uniform(-10, 40),
+        lambda: {'fn': 'survey.first_vel_corrn', 'args': [rnd.uniform(10, 5000), {'$list': [281.781, 79.393]}, rnd.uniform(-10, 40),
                                                           rnd.uniform(900, 1050), rnd.uniform(0, 100)],
                  'kwargs': {'CO2_ppm': rnd.uniform(350, 500), 'wavelength': 0.85}},
         lambda: {'fn': 'survey.precise_inst_ht', 'args': [{'$list': [round(rnd.uniform(88, 100), 4) for _ in range(rnd.randint(3, 7))]},
                                                           0.1, 0.3]},
+        lambda: {'fn': 'survey.precise_inst_ht', 'args': [degenerate_list(rnd), 0.1, 0.3], 'degenerate': True},
+        lambda: {'fn': 'survey.precise_inst_ht', 'args': [degenerate_list(rnd), rnd.choice([0.1, 0.0]), rnd.choice([0.3, 0.1])], 'degenerate': True},
+        # other calls the library refuses: what the caller handed over must come back untouched and the refusal must repeat
+        lambda: {'fn': 'angles.hp2dec_v', 'args': [{'$nd': [12.3045, rnd.choice([45.6, 10.0075, -3.6]), 359.5959, 45.0]}], 'degenerate': True},
+        lambda: {'fn': rnd.choice(['statistics.vcv_cart2local', 'statistics.vcv_local2cart']),
+                 'args': [{'$nd': rnd.choice([[[1e-4, 0.0], [0.0, 2e-4]], [[1e-4, 2e-4, 3e-4]], [1e-4, 2e-4, 3e-4], []])}, lat(), lon()], 'degenerate': True},
+        lambda: {'fn': 'survey.first_vel_corrn', 'args': [rnd.uniform(10, 5000), {'$list': rnd.choice([[281.781], [], [281.781, 79.393, 1.0]])},
+                                                          rnd.uniform(-10, 40), rnd.uniform(900, 1050), rnd.uniform(0, 100)], 'degenerate': True},
+        lambda: {'fn': 'convert.geo2grid', 'args': [{'$angle': [rnd.choice(classes), rnd.choice([84.5, -80.5, 91.0])]},
+                                                    {'$angle': [rnd.choice(classes), lon()]}], 'degenerate': True},
+        lambda: {'fn': 'statistics.error_ellipse', 'args': [{'$nd': rnd.choice([[[1e-4, 0.0], [0.0, 2e-4]], [[-1e-4, 0, 0], [0, -2e-4, 0], [0, 0, 1e-4]], []])}],
+                 'degenerate': True},
         lambda: {'fn': 'survey.va_conv', 'args': [rnd.uniform(60, 120), rnd.uniform(1, 1000), 1.5, 1.7]},
         lambda: {'fn': 'survey.radiations', 'args': [rnd.uniform(0, 1e6), rnd.uniform(0, 1e7), rnd.uniform(0, 360), rnd.uniform(0, 1e4)]},
         lambda: {'fn': 'survey.joins', 'args': [rnd.uniform(0, 1e6), rnd.uniform(0, 1e7), rnd.uniform(0, 1e6), rnd.uniform(0, 1e7)]},
@@ -316,7 +410,7 @@ def gen_pool(ns, rnd, size):
                           {'$nd': [1003.2, 1013.25, 947.6]}, {'$nd': [10.1, 12.0, 7.7]}, rnd.choice([420, 400.0, {'$nd': [420.0, 410.0, 500.0]}])]},
         lambda: {'fn': rnd.choice(['survey.phase_refractivity', 'survey.group_refractivity']),
                  'args': [0.85, rnd.uniform(-10, 40), {'$nd': rnd.uniform(900, 1050)}, {'$nd': rnd.uniform(0, 30)}]},
-        lambda: {'fn': 'survey.first_vel_corrn', 'args': [{'$nd': [1000.0, 2500.5]}, [281.781, 79.393], rnd.uniform(-10, 40),
+        lambda: {'fn': 'survey.first_vel_corrn', 'args': [{'$nd': [1000.0, 2500.5]}, {'$list': [281.781, 79.393]}, rnd.uniform(-10, 40),
                                                           {'$nd': [1003.2, 947.6]}, rnd.uniform(0, 100)],
                  'kwargs': {'CO2_ppm': rnd.uniform(350, 500), 'wavelength': 0.85}},
         lambda: {'fn': 'survey.radiations', 'args': [{'$nd': [1000.0, 2000.0]}, {'$nd': [5000.0, 6000.0]}, rnd.uniform(0, 360), {'$nd': [10.0, 250.5]}]},
@@ -347,6 +441,10 @@ def gen_pool(ns, rnd, size):
         lambda: {'fn': 'op:neg', 'args': [{'$trans': rnd.choice(trans)}]},
         lambda: {'fn': 'op:add', 'args': [{'$trans': rnd.choice(dated)}, date()]},
         lambda: {'fn': 'op:add', 'args': [{'$trans': rnd.choice(with_sd)}, date()]},
+        # a set re-referenced to the epoch it is already at, and used there
+        lambda: (lambda k: {'fn': 'op:add', 'args': [{'$trans': k}, {'$date': getattr(C, k).ref_epoch.isoformat()}]})(rnd.choice(dated)),
+        lambda: (lambda k: {'fn': 'op:add', 'args': [{'$trans': k}, {'$date': getattr(C, k).ref_epoch.isoformat()}]})(rnd.choice(with_sd)),
+        lambda: (lambda k: {'fn': 'transform.conform14', 'args': xyz() + [{'$date': getattr(C, k).ref_epoch.isoformat()}, {'$trans': k}, V(rnd)]})(rnd.choice(with_sd)),
         lambda: {'fn': 'method:cart', 'args': [{'$geo': [rnd.choice(classes), lat(), lon(), rnd.choice([None, 0.0, 35.5]), rnd.choice([None, 0.0, 20.25])]},
                                                ell()]},
         lambda: {'fn': 'method:tm', 'args': [{'$geo': [rnd.choice(classes), lat(), lon(), 10.0, None]}, ell()]},
@@ -573,11 +671,16 @@ def check_history(ns, ctx, bar, pool, gold, idxs, threads=0, inj=None, interleav
         if i in seen:
             ctx.count('repeated_identical_calls')
         seen.add(i)
+        if sp.get('degenerate'):
+            ctx.count('calls_with_degenerate_list')
         if any(isinstance(a, dict) and '$nd' in a for a in sp['args'][3:]) or 'vcv' in sp.get('kwargs', {}):
             ctx.count('calls_with_covariance')
         ctx.bucket(mode, sp['fn'], json.dumps(sp['args'][-2:], sort_keys=True)[:60])
-        res, mutated, nmut = results[pos]
+        res, mutated, nmut, shared = results[pos]
         ctx.count('mutable_arguments_checked', nmut)
+        ctx.count('results_edited_by_caller')
+        if shared:
+            ctx.violation('result-is-shipped-constant:%s' % sp['fn'], {'history': case, 'position': pos}, {'call': sp, 'constants': shared})
         if res != gold[i]:
             ctx.violation('result-differs-from-fresh-interpreter:%s#%s' % (sp['fn'], mode),
                           {'history': case, 'position': pos}, {'call': sp, 'got': json.loads(res), 'golden': json.loads(gold[i])})
